@@ -11,6 +11,7 @@ import (
 
 	"verif/mc/h"
 	"verif/mc/mcrt"
+	"verif/mc/oracle"
 )
 
 // ---- C20: schema classification ----
@@ -85,6 +86,11 @@ func c20Leaves() []J {
 	for _, n := range names {
 		out = append(out, J{"$ref": "#/definitions/" + n})
 	}
+	// $refs that are JSON pointers to a sub-schema of a definition (three or more tokens)
+	for _, ptr := range []string{"arr/items", "obj/properties/a", "tuple/items/1", "tupleExtra/additionalItems", "mapOfObj/additionalProperties", "arrOfObj/items",
+		"mapd/additionalProperties", "matrix/items", "extobj/properties/a", "allofd/allOf/1", "disc/properties/kind"} {
+		out = append(out, J{"$ref": "#/definitions/" + ptr})
+	}
 	return out
 }
 
@@ -130,7 +136,13 @@ func refclass(s map[string]any, defs map[string]any) c20Class {
 			return c20Class{} // a pure $ref cycle denotes nothing
 		}
 		seen[r] = true
-		s = asObj(defs[strings.TrimPrefix(r, "#/definitions/")])
+		// the $ref is a JSON pointer into the root (a definition, or a sub-schema of one)
+		toks, okp := oracle.PointerTokens(r, true)
+		var target any
+		if okp {
+			target, _ = oracle.Resolve(map[string]any{"definitions": defs}, toks)
+		}
+		s = asObj(deepCopyJSON(target))
 	}
 	var c c20Class
 	c.Determined = true
